@@ -20,6 +20,31 @@ sys.path.insert(0, os.path.dirname(HERE))
 sys.path.insert(0, os.environ.get('PYVC_REPO', '/repo'))
 
 
+KILL_LOG = []          # every os.kill / os.killpg the code under replay attempted: (pid, sig)
+SAFE_PIDS = set()      # children spawned by an adapter itself may really be signalled
+
+
+def _install_kill_guard():
+    """the code under replay may be a CHANGED circus that signals arbitrary pids (0 = our own process group, -1 = every
+    process): real signals are delivered only to pids an adapter registered in SAFE_PIDS; everything else is recorded
+    and answered with ESRCH"""
+    real_kill, real_killpg = os.kill, getattr(os, 'killpg', None)
+
+    def guarded_kill(pid, sig):
+        KILL_LOG.append((pid, int(sig)))
+        if pid in SAFE_PIDS:
+            return real_kill(pid, sig)
+        raise ProcessLookupError(3, 'replay guard: no such process')
+
+    def guarded_killpg(pgid, sig):
+        KILL_LOG.append((-pgid, int(sig)))
+        raise ProcessLookupError(3, 'replay guard: no such process group')
+    os.kill = guarded_kill
+    if real_killpg is not None:
+        os.killpg = guarded_killpg
+    os._exit_real_kill = real_kill
+
+
 def _alarm(signum, frame):
     print(json.dumps({'verdict': 'error', 'detail': 'watchdog: replay blocked'}))
     sys.stdout.flush()
@@ -70,6 +95,7 @@ def sweep(qual, budget):
 
 
 def main():
+    _install_kill_guard()
     if sys.argv[1] == '--sweep':
         signal.signal(signal.SIGALRM, _alarm)
         budget = float(sys.argv[3]) if len(sys.argv) > 3 else 120.0
